@@ -7,6 +7,12 @@ TECH = "contract-based deductive verification: own VC generator over go/ssa, con
 
 # property -> (level text, level note, design ref)
 CLAIMED = {
+ "C01": ("Proof, unbounded over all field values: for each of the 65 registered message types and the 7 sub-records, the encoder's output is the byte layout transcribed from the 9P2000.L description (layout DSL in the contract file; little-endian integers, 2-byte-length strings, counted lists, AttrMask/SetAttrMask bit tables, permission masking) and the decoder recovers the fields from any frame of that shape (functional form fields = parse(frame) and the for-all-m form); protocol numbers of typ(); typed buffer wrappers proved against the primitives; Read8..64/ReadString/Write8..64/append/consume proved at the byte-array level against their bodies.",
+         "BRIDGE: the sequence-level contracts of the ten core buffer primitives restate their byte-array contracts over the ghost sequences wr/rd and are assumed (listed in evidence); WriteString's array-level loop is not decided (assumed). send/recv framing (7-byte header, payload vectors) and the registry are not yet verified against bodies; the send-then-recv composition lemma is on paper. Strings/lists longer than 65535 are outside the property's domain (preconditions).",
+         "4-C01"),
+ "C02": ("Partial proof: no-panic (index, slice, make, nil, type assertion) and overrun behaviour of every buffer primitive and of every decoder for arbitrary bytes and arbitrary receiver state (sticky overflow flag, zero results on overrun, ReadString allocation <= 65535); handleRequest: a connection error ends serving without a reply; every reply is sent exactly once.",
+         "recv's size checks / drain / consumption contract and the server's Rlerror-for-protocol-error path are not yet verified against recv's body (assumed contract), so 'consumes exactly its declared size' is NOT yet decided. Goroutine scheduling trusted.",
+         "4-C02"),
  "C03": ("Proof of the server half: for each request handler, call-site obligations that the backend File method is called on the File bound to the request's fid with exactly the message's fields as arguments, that the reply carries the backend's results, and that a backend error becomes Rlerror(errno(err)) through newErr; ExtractErrno is specified by the uninterpreted function errno.",
          "Not yet under contract: the client half (one T-message per clientFile method, version gating) and ExtractErrno's body (its contract is assumed; listed as UNVERIFIED in the evidence). Backends are assumed to satisfy the File interface contracts. Trusted: front end, VC generator, solvers.",
          "4-C03"),
@@ -16,6 +22,9 @@ CLAIMED = {
  "C05": ("Proof of per-function reference/ownership deltas with ghost state: owed(r) (references the invocation holds) and own(f) (File ownership): every DecRef drops a held reference, every handler returns with owed unchanged and no File left owned locally (error paths close what they obtained), a File is stored into a fidRef only when freshly obtained (no sharing), Close only on owned Files, no method on a closed File. Table functions proved against their bodies.",
          "The global 'exactly once' follows from the deltas by a counting lemma that is argued on paper, not machine checked. DecRef's body (close at zero, parent release) and connState.stop are not yet verified (assumed contract). Schedules: atomics treated as sequential. Panic exits are not claimed for reference balance (the statement asks it for errors).",
          "4-C05"),
+ "C06": ("Proof of the structural half: handleRequest sends at most one reply, exactly one per handled request, with the request's tag, under sendMu, after StartTag succeeded, never while holding the receive token and only after a receiver exists; connState.handle always returns a reply whose type is the request's R-type or Rlerror (all 33 handlers verified against the handler interface contract), ENOSYS for non-requests, EFAULT on panic; tags untouched by handlers.",
+         "NOT decided: the scheduling half (a blocked backend call delays only conflicting requests) - argued from the hand-off obligation plus C07 lock sets, not explored. send/recv bodies assumed. Known finding F5 (Tflush of its own tag).",
+         "4-C06"),
  "C07": ("Proof of the lock discipline: the lock class of every File method is a precondition on the interface method (read/write/global class over ghost hold counts of renameMu and the path node of the fidRef the receiver was loaded from), checked at every backend call site of every handler; safelyRead/Write/Global are proved against higher-order wrapper contracts; unlink's child-node lock; guarded-by obligations for fidRef.opened/openFlags.",
          "Mutual exclusion of sync.RWMutex is trusted; exclusion is derived from lock sets, not explored over schedules. Files not yet stored in a fidRef are private to the invocation. Known findings F9, F10 (known_findings.txt).",
          "4-C07"),
@@ -28,12 +37,24 @@ CLAIMED = {
  "C11": ("Proof, unbounded over len/offset/chunk size: chunk() against ghost-accumulated call log of its callback: chunks contiguous, in order, each within the limit, stop at first short or failed chunk, returned count is the sum and error the last one, len(p)==0 issues exactly one call, no panic, termination (decreases).",
          "Callback assumed honest about counts (0 <= n <= len). readAt/writeAt (one Tread/Twrite, EOF translation) not yet under contract.",
          "4-C11"),
+ "C12": ("Proof of the server half from the statement: Tversion always gets Rversion; msize 0 / unparsable / non-L strings => ('unknown', 0) and session unchanged; otherwise msize = min(requested, 4 MiB), version = min(N, 7) in canonical spelling; parseVersion parses canonical strings back to the same number; versionString spelling.",
+         "Assumed facts about fmt.Sprintf(%d), strings.Split and strconv.ParseUint on canonical strings (attached to the call sites, listed in evidence). NewClient's adoption of version/msize (client half) is not yet under contract; F3 (client keeps its own msize) is therefore not yet reported by a check.",
+         "4-C12"),
+ "C13": ("Proof of the server half: Rread frame <= msize for every count (tread.handle postcondition, with the read-buffer pool contract), Rreaddir frame <= msize (count clamp in treaddir.handle + rreaddir.encode loop invariant: payload <= count, whole entries), encoded sizes of every fixed part.",
+         "Client half (payloadSize derivation in NewClient, Readdir/xattr counts) not yet under contract. msize < 11 cannot admit any reply frame and is excluded (precondition). Pool buffers assumed to have length msize (Tversion not pipelined).",
+         "4-C13"),
+ "C14": ("Proof of ordering obligations: Rflush is constructed only after WaitTag(OldTag) returned; WaitTag returns at once for an idle tag and otherwise only after a receive on the tag's channel, which only ClearTag closes; ClearTag is called exactly once, after the handler returned and before the reply is sent; tflush.handle has no other effect.",
+         "Channel close/receive semantics trusted. Known finding F5: OldTag equal to the flush's own tag violates WaitTag's precondition.",
+         "4-C14"),
  "C15": ("Proof: every backend call site has an error outcome and a panic outcome; handlers' replies on backend error are Rlerror(errno(err)); lock balance on normal and panic exits of every handler and of the lock wrappers (deferred unlocks); fid table unchanged on error (clunk/remove still unbind); references balanced and obtained Files closed on error paths.",
          "connState.handle's recover contract not yet under contract (EFAULT mapping). DecRef assumed. Go runtime panics raised asynchronously are out of scope.",
          "4-C15"),
  "C16": ("Partial: proof of two sufficient disciplines only - lock-state preconditions of every mutex operation (no recursive acquisition, unlock only what is held, child node after parent only) and guarded-by obligations for fidRef.opened/openFlags; tree acyclicity invariant used for child-after-parent.",
          "NOT decided: progress (every request answered, lost wake-ups on channels/WaitGroup) and observational isolation are whole-system liveness / 2-safety properties outside per-function contracts. Full lock-level order and field classification for all shared fields not yet built.",
          "4-C16"),
+ "C18": ("Proof: every decoder is verified with the receiver object in an arbitrary initial state (recycled object), so its postcondition 'fields are a function of the frame' forces every list to be reset and every field assigned; read replies carry at most count bytes written by this request's ReadAt.",
+         "registry.get/put and recv's payload-buffer handling are not yet verified against bodies. Bridge contracts as in C01.",
+         "4-C18"),
  "C20": ("Proof (unbounded, all 64-bit inputs): encodeLikely against an independent spec function of the dev_t layout, injectivity and bit-63 disjointness as lemmas over that contract, ModeFromOS/OSMode/QIDType round-trip lemmas over the real SSA of the functions for all 2^32 modes.",
          "Not yet under contract: localToQid's fallback table and qids.Mapper (stability / concurrency halves of the statement).",
          "4-C20"),
